@@ -301,7 +301,7 @@ CHECKS = {
                 "being exactly the consecutive bs-byte pieces (no empty trailing block); the MD5 wrapper digests the "
                 "concatenation; rendering is lower-case hex. The model is tied to the code by running the real hashers and "
                 "the extracted model on every composition of small inputs (plus a vm_compute sample) and the providers' own "
-                "hasher() at the 4 MiB boundaries against hashlib.",
+                "hasher() at the 4 MiB boundaries against hashlib; the call site in the encryptor is tied by real `vsb upload` runs of streams longer than one 4 MiB block through the real gpg to an honest emulated provider (vsb's checksum must agree with the provider's definition over the bytes sent).",
         "note": "Trusted: Coq kernel, extraction (ExtrOcamlBasic only) + 60-line OCaml driver, harness; sha2/md-5 crates and "
                 "hashlib implement SHA-256/MD5 (digest functions are parameters of the theorems); the 4 MiB constant and the "
                 "provider->hasher choice are pinned by execution, not by proof.",
